@@ -332,7 +332,7 @@ fn c15_case(ctx: &Ctx, rep: &mut Report, rng: &mut Rng, version: Version, done: 
     run_step(&mut sess, Step::HClose { slot: 6 }, done, rep)?;
     let template = rng.below(10);
     let params = CycleParams { size: *rng.pick(&[1u64, 60, 64, 100, 500, 1000, 4000, 4095, 4096, 5000, 10000, 70000]), keep_len, delta: *rng.pick(&[1u64, 63, 64, 500, 4000, 4096, 6000]), reverse: rng.chance(1, 2) };
-    let reps = rng.range(4, 6);
+    let reps = rng.range(5, 10);
     let container = if params.size < 4096 { "mini" } else { "regular" };
     let before = sess.model.dump();
     let mut lens: Vec<usize> = Vec::new();
@@ -356,7 +356,13 @@ fn c15_case(ctx: &Ctx, rep: &mut Report, rng: &mut Rng, version: Version, done: 
     let growth: Vec<i64> = lens.windows(2).map(|w| (w[1] as i64 - w[0] as i64) / sector).collect();
     let later_growth: i64 = growth.iter().skip(0).sum::<i64>();
     rep.count(&format!("growth_histogram.{}", later_growth.clamp(-1, 5)));
-    if lens[1..].iter().any(|&l| l != lens[0]) {
+    // "unchanged from the second repetition on": the first repetition may allocate, and
+    // the second may still differ because the free lists it starts from are in another
+    // order; from then on the size must not move (a leak grows without bound).
+    if lens[1] != lens[0] {
+        rep.count("size_changed_between_repetition_1_and_2");
+    }
+    if lens[2..].iter().any(|&l| l != lens[1]) {
         let per: Vec<String> = growth.iter().map(|g| format!("{g:+}")).collect();
         return Err((format!("growth | template{} | {} | file grows on repeating a net-zero cycle", template, container), format!("{}: file length after repetitions 1..{} = {:?} (sector deltas {})", vname(version), lens.len(), lens, per.join(","))));
     }
